@@ -353,7 +353,8 @@ def interp_sites(db, rep, prog):
             ('first-line-blank', b'\n./Mailbox\n', False, True, None), ('later-line-blank', b'./Mailbox\n \n\n/m/\n', False, True, None),
             ('+listing-is-not-+list', b'+listing\n./Mailbox\n', False, True, None), ('program-exit-99', b'|one\n|two\n./Mailbox\n&a@b\n', False, True, b'one'),
             ('empty-.qmail-uses-the-default-delivery', b'', True, True, None), ('comment-only', b'#only\n', False, True, None),
-            ('-n-says-what-would-be-done', BIG, False, True, None)]
+            ('-n-says-what-would-be-done', BIG, False, True, None),
+            ('only-forward-lines,the-last-one-unterminated', b'&a@b\n&c@d', False, True, None), ('one-unterminated-forward-line', b'e@f', False, True, None)]
     bad = {}
     n = 0
     for name, text, xbit, found, f99 in scen:
